@@ -14,6 +14,6 @@ shift || true
 checks=${@:-C01 C02 C03 C04 C05 C06 C07 C08 C09 C10 C11 C12 C13 C14 C15 C16 C17 C18 C19 C20}
 (cd harness_snap && CARGO_NET_OFFLINE=true cargo build --release --offline 2>&1 | tail -1)
 for c in $checks; do
-  s=$(date +%s); out=$(python3 run.py $c --tier $tier --no-build 2>&1); rc=$?; e=$(date +%s)
+  s=$(date +%s); rc=0; out=$(python3 run.py $c --tier $tier --no-build 2>&1) || rc=$?; e=$(date +%s)
   echo "$c rc=$rc $((e-s))s $(echo "$out" | grep -E '^(HELD|VIOLATION|ERROR)' | head -3 | tr '\n' ' ') | $(echo "$out" | grep -E 'miri|e2e' | tr '\n' ';' | cut -c1-300)"
 done
